@@ -14,6 +14,7 @@ import PyTealV.Cmd.C16
 import PyTealV.Cmd.C04
 import PyTealV.Cmd.C08
 import PyTealV.Cmd.C14
+import PyTealV.Cmd.C18
 namespace PyTealV.Cmd
 
 def extraCommands : List (String × (List String → String)) := [
@@ -45,7 +46,10 @@ def extraCommands : List (String × (List String → String)) := [
   ("c04-label", C04.labelCmd),
   ("c08-dispatch", C08.dispatchCmd),
   ("c14-model", C14.model), ("c14-spec", C14.spec), ("c14-submitted", C14.submittedCmd),
-  ("c14-view", C14.view), ("c14-pack", C14.pack), ("c14-fields", C14.fields)
+  ("c14-view", C14.view), ("c14-pack", C14.pack), ("c14-fields", C14.fields),
+  ("c18-strip", C18.strip), ("c18-splitlines", C18.splitlinesCmd), ("c18-commentop", C18.commentop), ("c18-commentexpr", C18.commentexpr),
+  ("c18-comment", C18.commentCmd), ("c18-assert", C18.assertCmd), ("c18-header", C18.headerCmd),
+  ("c18-instr", C18.instr), ("c18-recorded", C18.recorded)
 ]
 
 def dispatch (cmd : String) (args : List String) : Option String :=
